@@ -405,6 +405,7 @@ OpClauses(e, pre, post) ==
     [] e.op = "find_settings" -> FindSettingsC(e, pre, post)
     [] e.op \in {"format_matching", "unformat_matching"} -> MatchingC(e, pre, post)
     [] e.op = "twincheck" -> TwinC(e, pre, post)
+    [] e.op = "twinrender" -> Cl("C13.twin_render_flags", TRUE, e.a.a = e.a.b)
     [] e.op = "pgs"    -> PgsC(e)
     [] e.op = "s2d"    -> S2dC(e)
     [] e.op = "pcs"    -> PcsC(e)
@@ -413,5 +414,16 @@ OpClauses(e, pre, post) ==
     [] e.op = "scrub"  -> ScrubC(e)
     [] OTHER -> TextOpClauses(e, pre, post)
 
-Clauses(e, pre, post) == Common(e, pre, post) \o OpClauses(e, pre, post)
+\* in the doubly-spelled histories of check C14 (tag "sp") a failing apply/remove contract is also a C14 failure:
+\* the spelling was not read as the settings it denotes
+ApplyRemoveClauseNames ==
+  {"C06.defined", "C06.text", "C06.noop", "C06.outside", "C06.inside_gains", "C06.bottom_display", "C06.top_display",
+   "C07.defined", "C07.text", "C07.noop", "C07.inside", "C07.outside", "C07.outside_display"}
+SpelledC(e, cl) ==
+  IF e.tag # "sp" THEN None
+  ELSE Cl("C14.history_op_contract", TRUE,
+          \A i \in DOMAIN cl : cl[i][3] \/ cl[i][1] \notin ApplyRemoveClauseNames)
+
+Clauses(e, pre, post) ==
+  LET cl == Common(e, pre, post) \o OpClauses(e, pre, post) IN cl \o SpelledC(e, cl)
 =============================================================================
